@@ -200,6 +200,9 @@ class C08(common.Prop):
             {'kind': 'fb', 'atom': 'C', 'L': ['$0']},
             {'kind': 'fb', 'atom': '[#A]', 'L': ['>1', '<A1', '!1']},
             {'kind': 'fb', 'atom': 'C', 'L': ['$2', '>x1']},
+            {'kind': 'rfc', 'name': 'X', 'text': '[#A][$]=[#B]([#C][>])[#D]1[#E][#F]1[!A]'},
+            {'kind': 'rfc', 'name': 'PEO', 'text': '[<][#PEO][#PEO][>]'},
+            {'kind': 'rfc', 'name': 'X', 'text': '[#A]([#B]'},
             {'kind': 'frag', 's': '{#X=[#A][#B][$]}', 'aa': False},
             {'kind': 'frag', 's': '{#X=[#X]([#X])=[#X]}', 'aa': False},
             {'kind': 'frag', 's': '{#X=[#X]=1[#X][#X]1}', 'aa': False},
@@ -251,7 +254,15 @@ class C08(common.Prop):
             names = rng.sample(['A', 'B', 'C', 'D', 'PEO'], rng.randint(1, 3))
             syms = ('', '', '', '', '=', '#') if rng.random() < 0.6 else ('',)
             out.append({'kind': 'frag', 's': rand_fragments(rng, names, aa, max_desc=3, syms=syms), 'aa': aa})
-        n_whole = n - n_fb - n_frag
+        # correspondence stream of the model of read_fragment_cgsmiles (coarse branch of fragment_iter)
+        n_rfc = max(60, n // 8)
+        for _ in range(n_rfc):
+            nm = rng.choice(['A', 'B', 'X', 'PEO'])
+            sk = cg_skeleton(rng, nm)
+            syms = ('', '', '', '=', '#', '.') if rng.random() < 0.6 else ('',)
+            out.append({'kind': 'rfc', 'name': nm,
+                        'text': gens.decorate(rng, sk, rng.randint(0, 3), kinds=KINDS, labels=('', '', 'A', 'B', '1'), syms=syms)})
+        n_whole = max(0, n - n_fb - n_frag - n_rfc)
         for _ in range(n_whole):
             names = rng.sample(['A', 'B', 'C', 'D'], rng.randint(1, 3))
             base, _ = gens.rand_base_graph(rng, names, nmax=5, max_order=rng.choice([1, 1, 2]), p_zero=0.0)
@@ -278,6 +289,8 @@ class C08(common.Prop):
             return self.impl_fb(case)
         if kind == 'frag':
             return self.impl_frag(case)
+        if kind == 'rfc':
+            return self.impl_rfc(case)
         return self.impl_whole(case)
 
     def impl_fb(self, case):
@@ -329,6 +342,16 @@ class C08(common.Prop):
             except Exception as exc:
                 out['read_exc'] = type(exc).__name__
         return out
+
+    def impl_rfc(self, case):
+        from cgsmiles.read_fragments import strip_bonding_descriptors
+        from cgsmiles.cgsmiles_utils import read_fragment_cgsmiles
+        try:
+            smile, bd, _, attrs = strip_bonding_descriptors(case['text'])
+            G = read_fragment_cgsmiles(smile, case['name'], bd, attrs)
+        except Exception as exc:
+            return {'exc': type(exc).__name__}
+        return {'obs': lit.obs_graph(G)}
 
     def impl_whole(self, case):
         from cgsmiles.resolve import MoleculeResolver
@@ -385,6 +408,9 @@ class C08(common.Prop):
             return '(CFb %s %s %s %s)' % (lit.s(case['atom']), lit.lst([lit.s(d) for d in case['L']]),
                                            lit.opt(impl.get('s'), lit.s),
                                            lit.opt(impl.get('back'), lambda l: lit.lst([lit.s(d) for d in l])))
+        if kind == 'rfc':
+            return '(CRfc %s %s [] %s)' % (lit.s(case['name']), lit.s(case['text']),
+                                           'None' if 'obs' not in impl else '(Some %s)' % impl['obs'])
         if kind == 'frag':
             rr = lit.opt(impl.get('reread'), lambda l: lit.lst([lit.pair(lit.s(nm), coq_graph(g)) for nm, g in l]))
             wits = lit.lst([zpairs(w) for w in impl.get('wits', [])])
@@ -404,6 +430,8 @@ class C08(common.Prop):
             return 0
         if 'write_exc' in impl:
             return 1
+        if case['kind'] == 'rfc':
+            return 0
         if case['kind'] == 'fb':
             return 2 if 'read_exc' in impl else (0 if impl.get('back') == case['L'] else 3)
         if case['kind'] == 'frag':
@@ -417,6 +445,8 @@ class C08(common.Prop):
 
     def case_class(self, case, impl):
         kind = case['kind'] + (':aa' if case.get('aa') else (':cg' if 'aa' in case else ''))
+        if case['kind'] == 'rfc':
+            return 'rfc:' + ('raised:' + impl['exc'] if 'exc' in impl else 'graph')
         if 'skip' in impl:
             return kind + ':skipped:' + impl['skip']
         if case['kind'] == 'whole' and 'mol1' not in impl:
